@@ -1,7 +1,7 @@
 """C14 — constraint violations raise and leave the value unchanged."""
 from hist import *  # noqa
 
-THEOREMS = ["C14_unchanged", "C14_out_of_range_uint", "C14_other_width_refused", "C14_wrong_length", "C14_over_limit", "C14_index_out_of_bounds", "C14_pop_empty_append_full", "C14_invalid_selector", "C14_unchanged_on_chain", "C14_constructor_sound", "C14_constructor_rejects", "C14_constructor_accepts_iff", "C14_valid_denotes_itself", "C14_slice_all_or_nothing", "C14_element_set_progress"]
+THEOREMS = ["C14_unchanged", "C14_out_of_range_uint", "C14_other_width_refused", "C14_wrong_length", "C14_over_limit", "C14_index_out_of_bounds", "C14_pop_empty_append_full", "C14_invalid_selector", "C14_unchanged_on_chain", "C14_constructor_sound", "C14_constructor_rejects", "C14_constructor_accepts_iff", "C14_valid_denotes_itself", "C14_slice_all_or_nothing", "C14_element_set_progress", "C14_stale_union_write_refused", "C14_union_guard_passes"]
 PARTIAL = ["unchanged-on-failure is proved for top-level views / copies (C14_unchanged) and for child views with a valid hook chain of any depth (C14_unchanged_on_chain); commands through STALE child views (slot popped away, union switched) are outside both theorems (and outside the property's premise as the harness reads it, DESIGN C14). The constructor theorems characterise mk on the abstract argument language (AVal / canon); Python argument spellings are tied by the correspondence"]
 COQ_IMPORTS = ["RM.Types", "RM.ModelStore", "RMR.RunH"]
 COQ_FN = "RunH.run2"
